@@ -111,10 +111,11 @@ def loopM (K : Nat) : LoopPc → Nat
 def closerM (K : Nat) : CPc → Nat
   | .returned _ => 0
   | .reporterClose => 1
-  | .purgePc => 2
-  | .pass p => 3 + passM K p
-  | .doneClosedPc => 6 + 2 * K
-  | .won => 7 + 2 * K
+  | .flushPc => 2
+  | .purgePc => 3
+  | .pass p => 4 + passM K p
+  | .doneClosedPc => 7 + 2 * K
+  | .won => 8 + 2 * K
   | _ => 0
 
 theorem passStep_measure {s : State} {ch : Nat} {p : PassPc} {s1 : State} {q : PassPc}
@@ -125,6 +126,21 @@ theorem passStep_measure {s : State} {ch : Nat} {p : PassPc} {s1 : State} {q : P
   | skip vis hc hv hx => have := unvisited_cons_lt _ vis ch hc hv; simp only [passM]; omega
   | over vis hc hall => simp only [passM]; omega
   | deliver i pend vis => simp only [passM]; omega
+
+/-- a step of the closer's final pass decreases its measure (the end of the range loops leads to the purge) -/
+theorem passStep_closerM {s : State} {ch : Nat} {p : PassPc} {s1 : State} {oq : Option PassPc}
+    (h : passStep s ch p = some (s1, oq)) :
+    closerM s.cells.length (afterPass oq) < closerM s.cells.length (.pass p) := by
+  cases oq with
+  | none => simp only [afterPass, closerM]; omega
+  | some q =>
+    have hm := passStep_measure h
+    cases q <;> simp only [afterPass, closerM] at hm ⊢ <;> omega
+
+theorem afterPass_midCall (oq : Option PassPc) : (afterPass oq).midCall = true := by
+  cases oq with
+  | none => rfl
+  | some q => cases q <;> rfl
 
 /-- the variant: what the winner `w` and the loop still have to do -/
 def variant (s : State) (w : Nat) : Nat := closerM s.cells.length (s.closers w) + loopM s.cells.length s.loop
@@ -144,9 +160,14 @@ theorem progress (s : State) (h : Ctl s) (w : Nat) (hmid : (s.closers w).midCall
     · simp [variant, setC, hp, closerM]
     · simp [setC, CPc.midCall]
   | purgePc =>
-    refine ⟨.closer w 0, setC (purgeAll s) w .reporterClose, by simp only [step, hp], by simp [setC, purgeAll], ?_,
+    refine ⟨.closer w 0, setC (purgeAll s) w .flushPc, by simp only [step, hp], by simp [setC, purgeAll], ?_,
       Or.inl ?_⟩
     · simp [variant, setC, purgeAll, hp, closerM]
+    · simp [setC, CPc.midCall]
+  | flushPc =>
+    refine ⟨.closer w 0, { setC s w .reporterClose with log := .flush :: s.log }, by simp only [step, hp], rfl, ?_,
+      Or.inl ?_⟩
+    · simp [variant, setC, hp, closerM]
     · simp [setC, CPc.midCall]
   | reporterClose =>
     by_cases hcl : s.closable = true
@@ -162,16 +183,10 @@ theorem progress (s : State) (h : Ctl s) (w : Nat) (hmid : (s.closers w).midCall
     obtain ⟨ch, s1, oq, hq⟩ := passStep_enabled s p
     have hlen := passStep_length hq
     have hloop : s1.loop = s.loop := by obtain ⟨c, l, rfl⟩ := passStep_frame hq; rfl
-    cases oq with
-    | none =>
-      refine ⟨.closer w ch, setC s1 w .purgePc, by simp only [step, hp, hq], hlen, ?_, Or.inl ?_⟩
-      · simp only [variant, setC, hp, closerM, if_true, hlen, hloop]; omega
-      · simp [setC, CPc.midCall]
-    | some q =>
-      have hm := passStep_measure hq
-      refine ⟨.closer w ch, setC s1 w (.pass q), by simp only [step, hp, hq], hlen, ?_, Or.inl ?_⟩
-      · simp only [variant, setC, hp, closerM, if_true, hlen, hloop]; omega
-      · simp [setC, CPc.midCall]
+    have hm := passStep_closerM hq
+    refine ⟨.closer w ch, setC s1 w (afterPass oq), by simp only [step, hp, hq], hlen, ?_, Or.inl ?_⟩
+    · simp only [variant, setC, hp, if_true, hlen, hloop]; omega
+    · simp [setC, afterPass_midCall]
   | doneClosedPc =>
     have hdone : s.doneClosed = true := by
       have := h.done_iff; rw [wpc_of_winner hw, hp] at this; simpa [ph] using this
